@@ -802,6 +802,32 @@ def c05_obligations(index: Index):
     return frame_obligations(index)
 
 
+C01_CONVERSIONS = {"full", "double", "to_tensor", "to_sptensor", "to_tenmat", "to_sptenmat", "to_ktensor", "from_tensor_type", "tovec", "tolist",
+                   "norm", "isequal", "innerprod"}
+C03_OPERATORS = {"__add__", "__sub__", "__mul__", "__truediv__", "__rtruediv__", "__radd__", "__rsub__", "__rmul__", "__neg__", "__pos__", "__eq__",
+                 "__ne__", "__lt__", "__le__", "__gt__", "__ge__", "_compare", "logical_and", "logical_or", "logical_xor", "logical_not", "ones",
+                 "elemfun", "allsubs", "find", "full", "to_tensor", "nnz", "spmatrix", "mask", "extract", "copy"}
+
+
+def _state_obligations(index, want):
+    """`modifies` obligations of the selected value-returning methods: they write nothing reachable from the receiver or
+    an operand -- in particular they keep no cached result in the object, so what they return is a function of the
+    current state of the operands only."""
+    out = []
+    for o in frame_obligations(index, scope=lambda q, fi: in_scope(q, fi) and want(q, fi)):
+        if "#frame:modifies-nothing-but-its-locals" in o["name"]:
+            out.append(dict(o, name=o["name"].replace("#frame:modifies-nothing-but-its-locals", "#frame:keeps-no-state(writes-nothing-reachable-from-receiver-or-operands)")))
+    return out
+
+
+def c01_state_obligations(index: Index):
+    return _state_obligations(index, lambda q, fi: bool(fi.cls) and fi.node.name in C01_CONVERSIONS and fi.cls in ("tensor", "sptensor", "ktensor", "ttensor", "sumtensor", "tenmat", "sptenmat"))
+
+
+def c03_state_obligations(index: Index):
+    return _state_obligations(index, lambda q, fi: fi.cls == "sptensor" and fi.node.name in C03_OPERATORS)
+
+
 def exemption_notes():
     return [f"ownership analysis exemption: {k} -- {v}" for k, v in IMPRECISION_EXEMPT.items()] + [
         f"documented sharing allowed: {q} may share with {sorted(v)}" for q, v in sorted(RESULT_ALIAS_ALLOWED.items())
